@@ -13,7 +13,7 @@ type Rng struct{ Lo, Hi rune }
 
 const MaxRune = 0x10FFFF
 
-// Expr kinds: lit class any seq alt opt star plus starng plusng ref
+// Expr kinds: lit class any seq alt opt star plus starng plusng ref group
 type Expr struct {
 	Kind string
 	Lit  string  `json:",omitempty"`
@@ -139,6 +139,9 @@ func (e *Expr) Text(top bool) string {
 		return "."
 	case "ref":
 		return e.Ref
+	case "group":
+		// explicit parentheses around a sub-expression (same language as the sub-expression)
+		return "(" + e.Kids[0].Text(true) + ")"
 	case "seq":
 		parts := make([]string, len(e.Kids))
 		for i, k := range e.Kids {
